@@ -93,7 +93,10 @@ CLAIMED["C16"] = c(
     "those of the batches applied one after another, the out- and in-chains of every page are permutations of the sequential ones, in = "
     "transpose of out (C16_schedule_independent_rules); the page query is sandwiched (C16_sandwich_partial: every item appended is, at that "
     "moment, a page under one of its prefixes; C16_sandwich_complete: a page present at its first step and qualifying at the end is in the "
-    "answer). For the network query and the outbound/inbound clauses of the page-link query the clause 'no item that qualified at no moment' "
+    "answer); the page-link query keeps its invariant under every schedule, appends only stored links whose other end resolves as the clause "
+    "says at that moment, and reports every internal link that qualified throughout (C16_plinks_sandwich_partial, C16_plinks_complete_internal); "
+    "the network query reports every edge sustained by one page link throughout (C16_network_lower). "
+    "For the network query and the outbound/inbound clauses of the page-link query the clause 'no item that qualified at no moment' "
     "is REFUTED (C16_network_upper_clause_refuted, C16_pagelinks_outbound_clause_refuted: witnesses replayed on /repo, findings F10, F11). "
     "'No request fails', the stale-copy hazards and every sandwich clause are also checked by running the real generators, every loop "
     "iteration a yield point, under random and enumerated schedules against the coroutine model (replies and bytes compared) and against "
@@ -102,5 +105,5 @@ CLAIMED["C16"] = c(
     "schedule exploration of the real generators",
     "DESIGN.md section 6 C16",
     "Known findings F10, F11 (known_findings.json). Partial: cooperative single-threaded scheduling only (as the property states); the lower "
-    "sandwich clause of the network and page-link queries is checked on the implementation, not proved.")
+    "clause of the outbound/inbound page-link clauses is checked on the implementation, not proved.")
 PENDING = {}
